@@ -197,9 +197,9 @@ CLAIMS = {
              "across back-ends directly. Theorems (Props/C04.lean, unbounded): the igraph graph builder (row positions + node_id attribute) "
              "encodes exactly the edges of the networkx builder for every well-formed table (any labelling / row order); degree-based and "
              "parent-column-based classification agree on every node; with correct labels both `_break_segments` variants use the same "
-             "seeds and stops.",
-        note="navis-fastcore is compiled code: agreement with it is differential testing only. The equivalence of the two distal-set "
-             "constructions for cut and of the Python Strahler sweep with the recurrence are covered by the correspondence, not by theorems. "
+             "seeds and stops; the two constructions of cut's distal set — reverse BFS (networkx) and 'delete the edge to the parent, take the "
+             "component' (igraph) — coincide for every well-formed forest and every cut node, hence both back-ends return identical fragments.",
+        note="navis-fastcore is compiled code: agreement with it is differential testing only. The equivalence of the Python Strahler sweep with the recurrence is covered by the correspondence, not by a theorem. "
              "Five defects of the Python fall-backs were repaired by fix: commits; two mask-related divergences of navis-fastcore stay open.",
         technique="Lean 4 proof of builder/classifier/seed equivalences + three-way differential correspondence against one model",
         ref="§5 C04"),
@@ -242,10 +242,12 @@ CLAIMS = {
              "the nearest surviving ancestor. Tie: navis' node table after prune_twigs (sizes equal to twig lengths, masks as ids/bool, "
              "recursion depths), prune_by_strahler (ints, lists, ranges, slices, negatives; connector drop/relocate), prune_at_depth "
              "(depth equal to a distance, any source), longest_neurite (n int/slice, inverse) diffed against the model on integer-length "
-             "forests; exact=True checked by cable accounting (exactly size removed per tip).",
-        note="exact=True and the greedy segment order under ties are decided by oracles only; the fixpoint theorem for recursive pruning and the "
-             "Strahler recurrence (fuel independence) are in progress. Six open findings (mask applied per node / chains under fastcore, "
-             "relocate KeyError, three crashes of exact=True).",
+             "forests; exact=True: heights decide — untouched nodes are farther than size from their farthest tip, a surviving moved tip is "
+             "EXACTLY size of cable from the farthest original tip below it, everything else within size is removed, the result is a forest "
+             "(exact_spec, exact_removed, exact_forest) — and navis' node set, parents and new tip positions are compared with it.",
+        note="The greedy segment order under ties is decided by the proved-sound checker only; recursive pruning reaches a fixpoint within |t| "
+             "rounds and removes only twigs (pruneTwigs_fixpoint, pruneTwigs_only_twigs). Two open findings live in compiled navis-fastcore "
+             "(mask applied per node; chains pruned only when a mask is given); five defects were repaired by fix: commits.",
         technique="Lean 4 keep-set definitions + subset theorem + exact differential correspondence incl. ties",
         ref="§5 C12"),
     'C20': dict(
@@ -266,7 +268,11 @@ CLAIMS = {
              "label for every node of every table; subset / reroot / cut (both pieces) / remove_nodes / downsample / reclassify preserve WF for every "
              "table and argument (no side condition), and by list induction every finite operation history does; remove_nodes links each kept "
              "node to its nearest kept ancestor; downsample keeps original ids/coordinates and every fix point; insert_nodes preserves WF "
-             "under the edge guard the code validates; re-classifying operations return fresh labels. Tie: random operation histories (7 modelled + "
+             "under the edge guard the code validates; re-classifying operations return fresh labels. A UNIFIED operation language (Model/OpsAll.lean, 21 "
+             "constructors: the above plus multi-cut, prune_twigs / prune_at_depth / longest_neurite / prune_by_strahler, heal, rewire, "
+             "break_fragments / drop_fluff, stitch / combine with foreign skeletons, resample, insert_nodes) preserves WF and label "
+             "correctness along every finite history (opsAll_preserve_WF, opsAll_labels_ok; only side condition: foreign skeletons passed to "
+             "stitch are themselves well-formed, checked at run time by applyAllChecked). Tie: random operation histories (7 modelled + "
              "19 watched operations, in place or on copies) on real TreeNeurons over generated forests (13 shapes × 6 labelings × 3 row "
              "orders); after every step the implementation's table is diffed against Lean applyOp on the implementation's own pre-state "
              "and the proved-sound Lean checkers wfB/labelsOKB are evaluated on the implementation's table, plus no-NaN and soma-exists.",
